@@ -88,6 +88,15 @@ def rule_pipe(ctx: Ctx) -> RuleResult:
     else:
         res.violation([us.qualname, "pipeline call"], "unfold_search does not run list_search_unfolders (+ extrapolate only under "
                                                       "do_extrapolate) over str(search_sid)", us.relpath, us.node.lineno)
+    # the test-only reduction to one Sid per string happens only on request
+    for c in own_nodes(us.node):
+        if isinstance(c, ast.Call) and (dotted(c.func) or "").split(".")[-1] == "uniquify_searches":
+            if ("do_uniquify", True) in facts_at(ctx, us, c):
+                res.ok("unfold_search: uniquify_searches", "only under `do_uniquify`")
+            else:
+                res.violation([us.qualname, "uniquify by default"], "unfold_search reduces the typed searches to one per string without being asked "
+                                                                    "to (do_uniquify): the other types that share the string are never searched",
+                              us.relpath, c.lineno)
     return res
 
 
@@ -322,6 +331,27 @@ def rule_expand(ctx: Ctx) -> RuleResult:
         res.ok("expand leaf restriction", "templates and matches are kept when their last key equals leaf_keys[basetype]")
     else:
         res.violation([f.qualname, "leaf restriction"], "expand no longer restricts '**' to types ending in the configured leaf key", f.relpath, f.node.lineno)
+    # ... and with the right sense: what is tried / kept is what DOES end in the leaf key (or everything under do_extrapolate)
+    from ..shape import fact_nodes_at
+
+    appends = [n for n in own_nodes(f.node) if isinstance(n, ast.Call) and isinstance(n.func, ast.Attribute) and n.func.attr == "append"
+               and isinstance(n.func.value, ast.Name) and n.func.value.id in {norm(r.value.args[0]) if isinstance(r.value, ast.Call) and r.value.args
+                                                                                else norm(r.value) for r in _rets(f) if r.value is not None}
+               | {"result"}]
+    for what, node in [("the template is tried", repl[0])] + [("the typed search is kept", a) for a in appends]:
+        wrong = None
+        for e, truth in fact_nodes_at(ctx, f, node):
+            for c in [x for x in ast.walk(e) if isinstance(x, ast.Compare) and len(x.ops) == 1 and norm(x.comparators[0]) == "leaf_key"]:
+                negated_inside = isinstance(c.ops[0], ast.NotEq)
+                if (not truth) != negated_inside and not (negated_inside and not truth):
+                    wrong = c
+                if negated_inside and truth:
+                    wrong = c
+                if (not negated_inside) and not truth:
+                    wrong = c
+        if wrong is not None:
+            res.violation([f.qualname, "leaf polarity", what], f"expand: {what} when `{norm(wrong)}` does NOT hold: '/**' is completed to the types "
+                                                               f"that do not end in the leaf key", f.relpath, wrong.lineno)
     once = any(isinstance(n, ast.Compare) and "count('/**')" in norm(n.left) and norm(n.comparators[0]) == "1" and isinstance(n.ops[0], ast.Gt)
                for n in own_nodes(f.node))
     if once:
@@ -348,7 +378,23 @@ def _alias_aware(ctx: Ctx, f: FunctionInfo, test: ast.AST) -> bool:
 def _bypass_ok(ctx: Ctx, f: FunctionInfo, cfg, node: ast.AST) -> bool:
     """the node is reached only for a Sid that is no search (no '*', ',', '>', '**' ...: Sid.is_search() is false) and that
     the extension unfolder leaves unchanged"""
-    alias = any(lab == "true" and _alias_aware(ctx, f, t) for t, lab in ctx.ef._dominating_tests(cfg, node))
+    from ..shape import fact_nodes_at
+
+    alias = False
+    for e, truth in fact_nodes_at(ctx, f, node):
+        if not _alias_aware(ctx, f, e):
+            continue
+        if isinstance(e, ast.Compare) and len(e.ops) == 1 and isinstance(e.ops[0], (ast.Eq, ast.NotEq)):
+            # "the extension unfolder leaves it unchanged": extensions(x) == x holds / extensions(x) != x does not
+            same = isinstance(e.ops[0], ast.Eq)
+            if same == truth:
+                alias = True
+        elif isinstance(e, ast.Compare) and len(e.ops) == 1 and isinstance(e.ops[0], (ast.In, ast.NotIn)):
+            # "<value> in extension_alias" must be false
+            if (isinstance(e.ops[0], ast.In) and not truth) or (isinstance(e.ops[0], ast.NotIn) and truth):
+                alias = True
+        elif truth and not isinstance(e, ast.Compare):
+            alias = True  # a helper predicate that consults the alias table, taken positively
     concrete = any((not truth) and (txt.endswith(".is_search()") or "search_symbols" in txt) for txt, truth in facts_at(ctx, f, node))
     return alias and concrete
 
@@ -525,11 +571,14 @@ def rule_dedup(ctx: Ctx) -> RuleResult:
             site = f"{label}: `yield {norm(y.value)[:40]}`"
             tests = ctx.ef._dominating_tests(cfg, y)
             guard = None
-            for t, lab in tests:
-                for c in [x for x in ast.walk(t) if isinstance(x, ast.Compare) and len(x.ops) == 1]:
-                    s = norm(c.comparators[0])
-                    if s in sets and ((isinstance(c.ops[0], ast.NotIn) and lab == "true") or (isinstance(c.ops[0], ast.In) and lab == "false")):
-                        guard = (t, c, s)
+            from ..shape import fact_nodes_at as _fna
+
+            for e_, truth_ in _fna(ctx, f, y):
+                # atomised: `x not in s` arrives as (`x in s`, False); a negated test arrives with its truth flipped
+                if isinstance(e_, ast.Compare) and len(e_.ops) == 1 and isinstance(e_.ops[0], ast.In) and not truth_:
+                    s = norm(e_.comparators[0])
+                    if s in sets:
+                        guard = (e_, e_, s)
             if guard is None:
                 res.violation([q, "unguarded yield", norm(y.value)], f"{f.short}: `yield {norm(y.value)}` is not guarded by a seen-set test: the "
                                                                      f"same entry can be returned once per unfolded form", f.relpath, y.lineno, site=site)
@@ -543,7 +592,7 @@ def rule_dedup(ctx: Ctx) -> RuleResult:
                         adds.append(n)
                     elif isinstance(n.func, ast.Name) and adders.get(n.func.id) == s:
                         adds.append(n)
-            tn = cfg.node_of(c)
+            tn = cfg.node_of(c) or cfg.node_of(c.left)
             if not adds:
                 res.violation([q, "no insert", s], f"{f.short}: `{key}` is tested against `{s}` but never added to it", f.relpath, y.lineno, site=site)
                 continue
@@ -731,7 +780,7 @@ def rule_assid(ctx: Ctx) -> RuleResult:
     for _ in [0]:
         for m in methods:
             for st in own_nodes(m.node):
-                if not (isinstance(st, ast.If) and norm(st.test) == "as_sid"):
+                if not (isinstance(st, ast.If) and norm(st.test) in ("as_sid", "not as_sid")):
                     continue
                 n += 1
                 body = [x for x in st.body if not isinstance(x, (ast.Break, ast.Continue))]
@@ -739,6 +788,8 @@ def rule_assid(ctx: Ctx) -> RuleResult:
                 if not st.orelse and st.body and isinstance(st.body[-1], (ast.Break, ast.Continue, ast.Return)):
                     # early-exit spelling: the other branch is what follows the `if`
                     orelse = [x for x in _following(m.node, st) if not isinstance(x, (ast.Break, ast.Continue))][:1]
+                if norm(st.test) == "not as_sid":
+                    body, orelse = orelse, body  # `body` is always what is produced when Sids were asked for
                 a = [x for x in body if isinstance(x, (ast.Expr, ast.Return, ast.Assign))]
                 b = [x for x in orelse if isinstance(x, (ast.Expr, ast.Return, ast.Assign))]
                 va = _value_of(a[0]) if len(a) == 1 and len(body) == 1 else None
@@ -969,7 +1020,18 @@ def rule_globre(ctx: Ctx) -> RuleResult:
     ss = ctx.p.function("spil.sid.read.finders.find_list.FindInList.star_search")
     m = [n for n in own_nodes(ss.node) if isinstance(n, ast.Call) and dotted(n.func) in ("re.match", "re.fullmatch")]
     g = [n for n in own_nodes(ss.node) if isinstance(n, ast.Call) and dotted(n.func) == "glob2re"]
-    if len(m) == 1 and len(g) == 1 and norm(g[0].args[0]) == "str(search_sid)" and norm(m[0].args[0]) == "pattern" and norm(m[0].args[1]) == "item":
+    matched_ok = True
+    if len(m) == 1:
+        from ..shape import fact_nodes_at as _fna2
+
+        for y in [y for y in _yields(ss) if isinstance(y, ast.Yield)]:
+            if not any(truth_ and any(x is m[0] for x in ast.walk(e_)) for e_, truth_ in _fna2(ctx, ss, y)):
+                matched_ok = False
+    if len(m) == 1 and not matched_ok:
+        res.violation([ss.qualname, "matching polarity"], "FindInList.star_search yields an entry that is not under a successful "
+                                                          "re.match(pattern, item): entries that do not match the search are returned",
+                      ss.relpath, m[0].lineno)
+    elif len(m) == 1 and len(g) == 1 and norm(g[0].args[0]) == "str(search_sid)" and norm(m[0].args[0]) == "pattern" and norm(m[0].args[1]) == "item":
         res.ok("FindInList.star_search", "re.match(glob2re(str(search_sid)), item) for every item of the list")
     else:
         res.violation([ss.qualname, "matching"], "FindInList.star_search does not test every item with re.match(glob2re(str(search_sid)), item)",
@@ -1115,7 +1177,27 @@ def rule_groupfinder(ctx: Ctx) -> RuleResult:
                     ok = True
         loops = [n for n in own_nodes(f.node) if isinstance(n, ast.For) and norm(n.iter).endswith(".items()")]
         delegated = any(isinstance(c, ast.Call) and isinstance(c.func, ast.Attribute) and c.func.attr == do for lp in loops for c in ast.walk(lp))
-        if ok and delegated:
+        # every typed search lands in its group: under the 'a Finder / Getter is configured' fact the loop variable is added to the
+        # group that is (or gets) stored under that instance
+        from ..shape import fact_nodes_at as _fna3
+
+        filled = False
+        outer = [n for n in own_nodes(f.node) if isinstance(n, ast.For) and not norm(n.iter).endswith(".items()")]
+        for lp in outer:
+            lv = norm(lp.target)
+            for c in ast.walk(lp):
+                if isinstance(c, ast.Call) and isinstance(c.func, ast.Attribute) and c.func.attr in ("append", "add") and c.args and norm(c.args[0]) == lv:
+                    facts = _fna3(ctx, f, c)
+                    neg = [e for e, truth in facts if not truth and isinstance(e, ast.Name) and any(
+                        d.kind == "assign" and isinstance(d.value, ast.Call) and dotted(d.value.func) == getter for d in flow.all_defs if d.var == e.id)]
+                    grp = inline_locals(f, c.func.value, c)
+                    hidden = any(isinstance(x, ast.BoolOp) and isinstance(x.op, ast.And) for x in ast.walk(grp))
+                    if not neg and not hidden:
+                        filled = True
+        if ok and delegated and not filled:
+            res.violation([q, "group filling"], f"{f.short}: the typed searches are not added to the group of their {getter}() instance (under "
+                                               f"'an instance is configured'): the groups handed to {do} are empty or incomplete", f.relpath, f.node.lineno)
+        elif ok and delegated:
             res.ok(f"{f.short}", f"searches are grouped by the {getter}() instance alone and each group goes to one {do} call")
         else:
             res.violation([q, "grouping key"], f"{f.short} does not group the typed searches by Finder/Getter instance alone: a '>' search that "
@@ -1165,6 +1247,27 @@ def rule_finderid(ctx: Ctx) -> RuleResult:
 
 
 # ------------------------------------------------------------------------------------------------
+def _query_kept(ctx: Ctx, res: RuleResult, f: FunctionInfo):
+    """a query that was put aside is put back on every typed search that is built"""
+    qname = None
+    for n in own_nodes(f.node):
+        if isinstance(n, ast.Assign) and isinstance(n.targets[0], ast.Tuple) and len(n.targets[0].elts) == 2 and isinstance(n.value, ast.Call) \
+                and isinstance(n.value.func, ast.Attribute) and n.value.func.attr == "split" and n.value.args and norm(n.value.args[0]) == "'?'":
+            qname = norm(n.targets[0].elts[1])
+    if qname is None:
+        return
+    for c in own_nodes(f.node):
+        if not (isinstance(c, ast.Call) and dotted(c.func) == "Sid" and c.args):
+            continue
+        facts = facts_at(ctx, f, c)
+        mentions = any(isinstance(x, ast.Name) and x.id == qname for x in ast.walk(c.args[0]))
+        if (qname, True) in facts and not mentions:
+            res.violation([f.qualname, "query dropped", norm(c)[:50]], f"{f.short}: `{norm(c)[:60]}` is built where a query was put aside, without "
+                                                                     f"it: the filter of the search is lost", f.relpath, c.lineno)
+        elif (qname, True) in facts:
+            res.ok(f"{f.short}: `{norm(c)[:50]}`", "the query that was put aside is appended again")
+
+
 def rule_alltypes(ctx: Ctx) -> RuleResult:
     """simple_typing answers with every type whose template matches the (search) string: the only returns that do not
     come out of the sid_to_dicts loop are the 'root cannot be typed' one and the empty-result fallback (C07: a search
@@ -1176,6 +1279,8 @@ def rule_alltypes(ctx: Ctx) -> RuleResult:
     f = expanded(ctx, f)
     flow = flow_of(f.node)
     cfg = cfg_of(f.node)
+    _query_kept(ctx, res, f)
+    _query_kept(ctx, res, ctx.p.function("spil.sid.core.utils.expand"))
     all_calls = [n for n in own_nodes(f.node) if isinstance(n, ast.Call) and (dotted(n.func) or "").split(".")[-1] == "sid_to_dicts"]
     if not all_calls:
         res.violation([f.qualname, "all matching templates"], "simple_typing no longer asks sid_to_dicts for every matching template: a search "
@@ -1325,3 +1430,70 @@ def rule_nonerow(ctx: Ctx) -> RuleResult:
 
 def _is_none_or_empty(e: ast.AST) -> bool:
     return isinstance(e, ast.Constant) and e.value is None
+
+
+def rule_narrow(ctx: Ctx) -> RuleResult:
+    """every typed search is narrowed by the query configured for its basetype and then by the one configured for its
+    type, whenever one is configured: `sid.get_with(query=<configured>)` under the fact that the configured query is
+    non-empty, the result carried on (C07: 'each result is narrowed to its basetype's configured values')"""
+    res = RuleResult("R-NARROW")
+    f = ctx.p.function("spil.sid.read.unfolders.typed_narrow.type_narrow")
+    flow = flow_of(f.node)
+    from ..shape import fact_nodes_at
+
+    seen = {}
+    for c in own_nodes(f.node):
+        if not (isinstance(c, ast.Call) and isinstance(c.func, ast.Attribute) and c.func.attr == "get_with"):
+            continue
+        q = next((k.value for k in c.keywords if k.arg == "query"), None)
+        if q is None:
+            continue
+        at = flow.node_of(c)
+        # the table the query was looked up in: the receiver of the `.get(..)` that defines it (not what it depends on further up)
+        qd = inline_locals(f, q, c)
+        table = None
+        for x in ast.walk(qd):
+            if isinstance(x, ast.Call) and isinstance(x.func, ast.Attribute) and x.func.attr == "get" \
+                    and norm(x.func.value).split(".")[-1] in ("basetyped_search_narrowing", "typed_search_narrowing"):
+                table = norm(x.func.value)
+                break
+            if isinstance(x, ast.Subscript) and norm(x.value).split(".")[-1] in ("basetyped_search_narrowing", "typed_search_narrowing"):
+                table = norm(x.value)
+                break
+        if table is None:
+            res.violation([f.qualname, norm(c), "not from the tables"], f"type_narrow applies `{norm(q)}`, which does not come from the configured "
+                                                                        f"narrowing tables", f.relpath, c.lineno)
+            continue
+        table = table.split(".")[-1]
+        # applied exactly when a query is configured
+        positive = any(truth and isinstance(e, ast.Name) and isinstance(q, ast.Name) and e.id == q.id for e, truth in fact_nodes_at(ctx, f, c)) or any(
+            truth and norm(e) == norm(q) for e, truth in fact_nodes_at(ctx, f, c))
+        negative = any((not truth) and norm(e) == norm(q) for e, truth in fact_nodes_at(ctx, f, c))
+        site = f"type_narrow: `{norm(c)}` ({table})"
+        if negative or not positive:
+            res.violation([f.qualname, table, "polarity"], f"type_narrow: the query configured in {table} is applied "
+                                                           f"{'when there is none' if negative else 'without testing that there is one'}: configured "
+                                                           f"narrowing is skipped (a '*' then also matches values outside the configured ones)",
+                          f.relpath, c.lineno, site=site)
+            continue
+        # the narrowed Sid is what goes on
+        par_assign = [n for n in own_nodes(f.node) if isinstance(n, ast.Assign) and n.value is c]
+        if not par_assign:
+            res.violation([f.qualname, table, "result dropped"], f"type_narrow: the result of `{norm(c)}` is not kept", f.relpath, c.lineno, site=site)
+            continue
+        seen[table] = c
+        res.ok(site, "applied when configured, result carried on")
+    for table in ("basetyped_search_narrowing", "typed_search_narrowing"):
+        if table not in seen and not any(fi.key[1:2] == [table] for fi in res.findings):
+            res.violation([f.qualname, table, "missing"], f"type_narrow no longer applies the narrowing configured in {table}", f.relpath, f.node.lineno)
+    if len(seen) == 2:
+        a, b = seen["basetyped_search_narrowing"], seen["typed_search_narrowing"]
+        cfg = cfg_of(f.node)
+        if not cfg.path_exists(cfg.node_of(a).id, cfg.node_of(b).id, exceptional=False):
+            res.violation([f.qualname, "order"], "type_narrow applies the type narrowing before the basetype narrowing", f.relpath, b.lineno)
+    # returns the narrowed Sid
+    for r in _rets(f):
+        at = flow.node_of(r)
+        if r.value is None or not any(a.kind == "call" and a.text.endswith("get_with") for a in flow.depends(r.value, at.id if at else None)):
+            res.violation([f.qualname, "return"], f"type_narrow returns `{norm(r.value) if r.value else None}`, not the narrowed Sid", f.relpath, r.lineno)
+    return res
